@@ -144,7 +144,7 @@ def run_for(pid, tree, base_rep=None, jobs=None, only=None):
         from .core import VERIF
         import json
         limits = {}
-        for sub, key in (("refactors_round3", "limits"), ("refactors_round4", "limits"), ("refactors_round5", "limits"), ("halves", "conservative")):
+        for sub, key in (("refactors_round3", "limits"), ("refactors_round4", "limits"), ("refactors_round5", "limits"), ("refactors_round6", "limits"), ("halves", "conservative")):
             lp = os.path.join(VERIF, "seeded", sub, "KNOWN_LIMITS.json" if sub != "halves" else "KNOWN_CONSERVATIVE.json")
             if os.path.exists(lp):
                 with open(lp, encoding="utf-8") as fh:
@@ -153,6 +153,7 @@ def run_for(pid, tree, base_rep=None, jobs=None, only=None):
                 sorted(glob.glob(os.path.join(VERIF, "seeded", "refactors_round3", "*.diff"))) + \
                 sorted(glob.glob(os.path.join(VERIF, "seeded", "refactors_round4", "*.diff"))) + \
                 sorted(glob.glob(os.path.join(VERIF, "seeded", "refactors_round5", "*.diff"))) + \
+                sorted(glob.glob(os.path.join(VERIF, "seeded", "refactors_round6", "*.diff"))) + \
                 sorted(glob.glob(os.path.join(VERIF, "seeded", "halves", "*.diff"))):
             sub = os.path.basename(os.path.dirname(dp))
             r3 = sub != "refactors"
@@ -161,7 +162,7 @@ def run_for(pid, tree, base_rep=None, jobs=None, only=None):
                 continue            # a measured limit of this property's recognisers (listed with its reason), not a regression
             with open(dp, encoding="utf-8") as fh:
                 files = apply_unified_diff(tree.files, fh.read())
-            name = ({"refactors": "corpus:", "refactors_round3": "corpus3:", "refactors_round4": "corpus4:", "refactors_round5": "corpus5:", "halves": "half:"}[sub]) + base_name
+            name = ({"refactors": "corpus:", "refactors_round3": "corpus3:", "refactors_round4": "corpus4:", "refactors_round5": "corpus5:", "refactors_round6": "corpus6:", "halves": "half:"}[sub]) + base_name
             if files is None:
                 stale.append(name)
                 continue
